@@ -120,7 +120,7 @@ struct ChildSpec {
   std::atexit(mark_exit_end);  // registered first: runs after every static destructor
   bool registered = false;
   while (sh->go.load() == 0) {
-    sleep_us(50);
+    sleep_us(200);
   }
   for (int r = 0; r != c.rounds; ++r) {
     {
@@ -225,7 +225,7 @@ int main(int argc, char** argv) {
     // log of a deadlocked mutant can still be printed and judged by the acceptor
     std::vector<bool> done(pids.size(), false);
     size_t left = pids.size();
-    for (long waited = 0; left != 0; waited += 200) {
+    for (long waited = 0; left != 0; waited += 1000) {
       for (size_t i = 0; i != pids.size(); ++i) {
         if (done[i]) continue;
         int st = 0;
@@ -247,7 +247,7 @@ int main(int argc, char** argv) {
         rc = 7;
         break;
       }
-      sleep_us(200);
+      sleep_us(1000);
     }
     if (rc == 7) break;
     probe(name);
